@@ -213,17 +213,92 @@ Proof.
   unfold hd_pow. rewrite (proj_apply RO Rfield). rewrite E0, E1, E2. reflexivity.
 Qed.
 
-(* atan2: both formulas the code differentiates (atan(y/x); -atan(x/y) when |atan2| is near pi/2)
-   have the partial derivatives x/(x^2+y^2) and -y/(x^2+y^2) of the polar angle, each on the whole
-   open half-planes where it is defined; the two therefore also share all second partials. *)
-Theorem atan2_branches_correct : forall x y,
+(* SOUNDNESS STEP (what links the jet algebra to derivatives).  Let A(s,t), B(s,t) be families of hyper-dual numbers
+   over R - e.g. the hyper-dual evaluation of two sub-expressions at the point x + s e_i + t e_j.  `computes D i j A`
+   says: on D, A's entry d1 i is the s-derivative of A's value, d1 j its t-derivative, and d2 i j the t-derivative of
+   d1 i (i.e. the entries ARE the first and second partial derivatives of the value function along e_i, e_j).  Then
+   seeded variables and constants compute, and every TRANSLATED operation maps families that compute to a family that
+   computes (whose value function is the operation applied to the value functions): +, -, unary -, x, number x, number +,
+   ** integer and both divisions away from a zero denominator, apply_operation with any triple that is correct on the
+   range, hence every DifferentiableMath function with its translated triple on its asserted domain.  By induction over
+   any expression built from these operations its derivative and second_derivative entries are the partial derivatives
+   of its value; the induction over a concrete expression is the repeated application of this theorem (no expression
+   datatype is mechanised, and no primitive's _evaluate tree is modelled). *)
+Theorem hyperdual_operations_compute_derivatives :
+  forall (D : R -> R -> Prop) (i j : nat),
+    (forall k x, computes D i j (fun s t => hd_from_variable RO k
+        (x + s * (if Nat.eqb i k then 1 else 0) + t * (if Nat.eqb j k then 1 else 0)))) /\
+    (forall c, computes D i j (fun _ _ => hd_const RO c)) /\
+    (forall A B : R -> R -> hd RO, computes D i j A -> computes D i j B ->
+       computes D i j (fun s t => hd_add RO (A s t) (B s t)) /\
+       computes D i j (fun s t => hd_sub RO (A s t) (B s t)) /\
+       computes D i j (fun s t => hd_mul RO (A s t) (B s t)) /\
+       ((forall s t, D s t -> v (B s t) <> 0) -> computes D i j (fun s t => hd_div RO (A s t) (B s t)))) /\
+    (forall (A : R -> R -> hd RO) (c : R), computes D i j A ->
+       computes D i j (fun s t => hd_neg RO (A s t)) /\
+       computes D i j (fun s t => hd_mul_scalar RO (A s t) c) /\
+       computes D i j (fun s t => hd_add_scalar RO (A s t) c) /\
+       ((forall s t, D s t -> v (A s t) <> 0) ->
+          (forall k, computes D i j (fun s t => hd_pow RO (A s t) k)) /\
+          computes D i j (fun s t => hd_rdiv RO c (A s t)))) /\
+    (forall (A : R -> R -> hd RO) (P : R -> Prop) (f f1 f2 : R -> R),
+       (forall y, P y -> is_derive f y (f1 y)) -> (forall y, P y -> is_derive f1 y (f2 y)) ->
+       (forall s t, D s t -> P (v (A s t))) -> computes D i j A ->
+       computes D i j (fun s t => hd_apply RO f f1 f2 (A s t))) /\
+    (forall (A : R -> R -> hd RO) d f f1 f2, triple_ok d f f1 f2 ->
+       (forall s t, D s t -> dom_holds d (v (A s t))) -> computes D i j A ->
+       computes D i j (fun s t => hd_apply RO (fun y => evR None 0 f y 0) (fun y => evR None 0 f1 y 0)
+                                             (fun y => evR None 0 f2 y 0) (A s t))).
+Proof.
+  intros D i j.
+  split; [intros k x; apply cmp_var|]. split; [intros c; apply cmp_const|].
+  split.
+  { intros A B Ha Hb. split; [apply cmp_add; assumption|]. split; [apply cmp_sub; assumption|].
+    split; [apply cmp_mul; assumption|]. intros Hn. apply cmp_div; assumption. }
+  split.
+  { intros A c Ha. split; [apply cmp_neg; assumption|]. split; [apply cmp_mul_scalar; assumption|].
+    split; [apply cmp_add_scalar; assumption|]. intros Hn.
+    split; [intros k; apply cmp_pow; assumption|apply cmp_rdiv; assumption]. }
+  split.
+  { intros A P f f1 f2 H1 H2 HP Ha. apply (cmp_apply D i j P); assumption. }
+  intros A d f f1 f2 T Hd Ha. apply (cmp_math D i j d); assumption.
+Qed.
+
+(* atan2.  (1) Both formulas the code differentiates (atan(y/x); -atan(x/y) when |atan2| is within 0.1 of pi/2) have the
+   first partials x/(x^2+y^2), -y/(x^2+y^2) of the polar angle on their half-planes; (2) the four second partials of
+   those closed forms (so both branches have the same Hessian of the polar angle); (3) applied to hyper-dual arguments
+   Y, X that compute, each branch - atan(Y/X) resp. -atan(X/Y), as the code builds them from /, atan and unary minus -
+   computes first and second partial derivatives, away from X = 0 resp. Y = 0.
+   PARTIAL: atan2 is not defined in the Coq standard library; that the value the code stores (math.atan2(y, x)) differs
+   from the differentiated branch formula by a locally constant multiple of pi/2, and that the branch the code selects is
+   defined (|atan2| near pi/2 implies y <> 0, otherwise x <> 0), is NOT mechanised (finite-difference streams
+   atan2-band / trees-fd / dihedral primitives cover it). *)
+Theorem atan2_branch_derivatives_partial : forall x y,
   (x <> 0 ->
      is_derive (fun t => evR None 0 atan2_branch_x_not_0 x t) y (x / (x ^ 2 + y ^ 2)) /\
      is_derive (fun t => evR None 0 atan2_branch_x_not_0 t y) x (- y / (x ^ 2 + y ^ 2))) /\
   (y <> 0 ->
      is_derive (fun t => evR None 0 atan2_branch_x_close_0 x t) y (x / (x ^ 2 + y ^ 2)) /\
-     is_derive (fun t => evR None 0 atan2_branch_x_close_0 t y) x (- y / (x ^ 2 + y ^ 2))).
-Proof. exact atan2_branches. Qed.
+     is_derive (fun t => evR None 0 atan2_branch_x_close_0 t y) x (- y / (x ^ 2 + y ^ 2))) /\
+  (x ^ 2 + y ^ 2 <> 0 ->
+     is_derive (fun t => x / (x ^ 2 + t ^ 2)) y (- (2 * x * y) / (x ^ 2 + y ^ 2) ^ 2) /\
+     is_derive (fun t => t / (t ^ 2 + y ^ 2)) x ((y ^ 2 - x ^ 2) / (x ^ 2 + y ^ 2) ^ 2) /\
+     is_derive (fun t => - t / (x ^ 2 + t ^ 2)) y ((y ^ 2 - x ^ 2) / (x ^ 2 + y ^ 2) ^ 2) /\
+     is_derive (fun t => - y / (t ^ 2 + y ^ 2)) x ((2 * x * y) / (x ^ 2 + y ^ 2) ^ 2)) /\
+  (forall (D : R -> R -> Prop) (i j : nat) (Y X : R -> R -> hd RO), computes D i j Y -> computes D i j X ->
+     let at3 := fun A => hd_apply RO (fun u => evR None 0 atan_f u 0) (fun u => evR None 0 atan_f' u 0)
+                                      (fun u => evR None 0 atan_f'' u 0) A in
+     ((forall s t, D s t -> v (X s t) <> 0) -> computes D i j (fun s t => at3 (hd_div RO (Y s t) (X s t)))) /\
+     ((forall s t, D s t -> v (Y s t) <> 0) -> computes D i j (fun s t => hd_neg RO (at3 (hd_div RO (X s t) (Y s t)))))).
+Proof.
+  intros x y. destruct (atan2_branches x y) as [B1 B2].
+  split; [exact B1|]. split; [exact B2|]. split; [exact (polar_second_partials x y)|].
+  intros D i j Y X Hy Hx at3. split; intros Hn.
+  - apply (cmp_math D i j atan_dom atan_f atan_f' atan_f''); [exact atan_triple|intros; exact I|].
+    apply cmp_div; assumption.
+  - apply cmp_neg. apply (cmp_math D i j atan_dom atan_f atan_f' atan_f''); [exact atan_triple|intros; exact I|].
+    apply cmp_div; assumption.
+Qed.
 
 (* IDPP.  One pair: the factor multiplying (x_i - x_j) in IDPP.grad is term'(r)/r for the term
    w(r)(c - r)^2.  Any number N of atoms: the array IDPP.grad assembles is the derivative of the
